@@ -227,9 +227,14 @@ def main(argv):
     if os.environ.get('PYVC_VERBOSE'):
         for r in results:
             print('--', r['qualname'], 'paths', r['paths'], 'obligations', len(r['obligations']), '%.1fs' % r['seconds'], r['exits'], r['error'] or '')
+            shown = {}
             for o in r['obligations']:
                 if o['verdict'] != 'proved' or os.environ.get('PYVC_VERBOSE') == '2':
-                    print('     %-9s %-60s %s %.2fs %s %s' % (o['verdict'], o['name'], o['path'], o['seconds'], o['detail'], (json.dumps(o['model'], default=str) if o['model'] else '')[:int(os.environ.get('PYVC_MODEL_CHARS', '300'))]))
+                    key = (o['verdict'], o['name'])
+                    shown.setdefault(key, []).append(o)
+            for (verdict, name), obs in shown.items():
+                o = obs[0]
+                print('     %-9s %-55s x%d path %s %.2fs %s %s' % (verdict, name, len(obs), o['path'], o['seconds'], o['detail'], (json.dumps(o['model'], default=str) if o['model'] else '')[:int(os.environ.get('PYVC_MODEL_CHARS', '300'))]))
     # ---- baseline (vacuity / shrinkage guard)
     base_path = os.path.join(HERE, 'baselines', prop + '.json')
     shrink = []
@@ -252,6 +257,9 @@ def main(argv):
 
     # ---- replay refutations
     replay_dir = os.path.join(HERE, 'replays', prop)
+    if os.path.isdir(replay_dir) and not only:
+        for _f in os.listdir(replay_dir):
+            os.unlink(os.path.join(replay_dir, _f))
     viol_lines = []
     seen = set()
     for r, o in violations:
